@@ -537,6 +537,8 @@ func main() {
 		}
 		one(r, c)
 	}
+	// member names with equal FNV-32a, Unicode / byte-pattern classes of names (legs3.go)
+	nameLegs(r)
 	if r.Search {
 		if r.Failed() {
 			r.Note("search legs not run: the thorough generators already produced a failing input")
